@@ -8,7 +8,28 @@ FILES = ['theories/Base.v', 'theories/gen/Codec.v', 'theories/gen/Tp21Gen.v', 't
 NORMAL = 2
 
 
+def gen_move(rng):
+    """the CA under test is operational on its preferred address, uses it, loses it to a lower NAME, moves to the next
+    address and goes on sending the same messages: each frame must carry the address held at that moment"""
+    pref = rng.choice(gen_ca.VETO[:100])
+    nameX = gen_ca.mk_name(rng, True) | (1 << 40)
+    nameY = (nameX - (1 << 40) + rng.randint(0, 1000)) & ~(1 << 48)
+    stacks = [dict(dll='j1939-21', max_cmdt=3, subs=[], cas=[dict(name=nameX, addr=pref, bypass=False, subs=[1], req=[2])]),
+              dict(dll='j1939-21', max_cmdt=3, subs=[dict(cid=20, filt=None)], cas=[dict(name=nameY, addr=pref, bypass=False, subs=[21], req=[22])])]
+    script = [dict(t=1000, s=0, op='ca_start', ca=0, delay=0), dict(t=1_500_000, s=1, op='ca_start', ca=0, delay=0)]
+    msgs = [(6, 0xFECA), (3, 0xD055), (6, 0x1FFFF)]
+    for t in (400_000, 700_000, 1_100_000, 2_200_000, 2_700_000, 3_400_000):
+        prio, pgn = rng.choice(msgs[:2])
+        script.append(dict(t=t + rng.randint(0, 50), s=0, op='ca_send_message', ca=0, a=[prio, pgn, dict(seed=rng.getrandbits(20), len=8)]))
+        if rng.random() < 0.5:
+            script.append(dict(t=t + 100 + rng.randint(0, 50), s=0, op='ca_send', ca=0, a=[0, 0xFE, 0xF6, 6, dict(seed=rng.getrandbits(20), len=8)]))
+    script.sort(key=lambda e: e['t'])
+    return dict(stacks=stacks, lat=[rng.choice([0, 1, 5000])], jit=[1], script=script, horizon=5_000_000)
+
+
 def gen(rng, k):
+    if k % 6 == 5:
+        return gen_move(rng)
     aac = rng.random() < 0.5
     pref = rng.choice(gen_ca.VETO if rng.random() < 0.6 else gen_ca.IMMEDIATE)
     bypass = rng.random() < 0.15
@@ -46,11 +67,24 @@ def gen(rng, k):
                 n = 8 if pf == 0xEE else 3
             script.append(dict(t=t, s=0, op='ca_send', ca=0, a=[rng.choice([0, 1]), pf, ps, rng.randint(0, 7), dict(seed=rng.getrandbits(20), len=n)]))
         elif r < 0.65:
-            script.append(dict(t=t, s=0, op='ca_send_message', ca=0, a=[rng.randint(0, 7), rng.choice([0xFECA, 0xEEFF, 0xD055, 0x1FFFF]), dict(seed=rng.getrandbits(20), len=rng.randint(0, 8))]))
+            script.append(dict(t=t, s=0, op='ca_send_message', ca=0, a=[rng.choice([6, 6, 3, rng.randint(0, 7)]), rng.choice([0xFECA, 0xFECA, 0xEEFF, 0xD055, 0x1FFFF]), dict(seed=rng.getrandbits(20), len=rng.randint(0, 8))]))
         else:
             script.append(dict(t=t, s=0, op='ca_request', ca=0, a=[rng.choice([0, 0, 1]), rng.choice([0xEE00, 0xEE00, 0xFECA, 0x3FFFF, 0, 0x1EE00, 0x2EE00, 0x3EE00, 0xEEFF, 0xEE30]), rng.choice([255, 0x30, pref])]))
     script.sort(key=lambda e: e['t'])
-    return dict(stacks=stacks, lat=[rng.choice([0, 1, 5000])], jit=[1], script=script, horizon=5_000_000)
+    sc = dict(stacks=stacks, lat=[rng.choice([0, 1, 5000])], jit=[1], script=script, horizon=5_000_000)
+    if rng.random() < 0.35:
+        # another thread of the application sends while one of the CA's address-claim / cannot-claim frames is being handed to the bus
+        ops = []
+        for _ in range(rng.randint(1, 2)):
+            r = rng.random()
+            if r < 0.4:
+                ops.append(dict(op='ca_send', ca=0, a=[0, rng.choice([0xFE, 0xD0]), rng.choice([255, 0x30]), 6, dict(seed=rng.getrandbits(20), len=rng.choice([3, 8]))]))
+            elif r < 0.75:
+                ops.append(dict(op='ca_send_message', ca=0, a=[6, rng.choice([0xFECA, 0xD055]), dict(seed=rng.getrandbits(20), len=8)]))
+            else:
+                ops.append(dict(op='ca_request', ca=0, a=[0, rng.choice([0xFECA, 0xEE00]), 255]))
+        sc['on_tx'] = [dict(s=0, pgn16=0xEEFF, nth=rng.choice([1, 2, 2, 3]), ops=ops)]
+    return sc
 
 
 def oracle(sc, res):
@@ -91,6 +125,12 @@ def oracle(sc, res):
                 # send_pgn(EE..) of an operational CA also lands here
                 continue
             if sa == 254 and ((pgnf >> 8) & 0xFF) == 0xEA:
+                if len(e[6]) >= 3 and (e[6][0] | (e[6][1] << 8) | (e[6][2] << 16)) != 0xEE00:
+                    v.append(dict(kind='request-from-the-null-address-for-another-pgn', t=e[0], id=hex(e[3]), data=list(e[6])))
+                continue
+            if sa in (254, 255):
+                # the null / global address is never a held address: application data must not be sent from it
+                v.append(dict(kind='application-frame-from-the-null-address', t=e[0], id=hex(e[3]), states=list(states)))
                 continue
             if ((pgnf >> 8) & 0xFF) in (0xEB, 0xEC):
                 # transport frames of a session that was opened while the CA held the address (not examined, see assumptions)
